@@ -88,37 +88,11 @@ func modelExpressible(m *Model) bool {
 	return true
 }
 
-func hasEmptyOperator(u *U) bool {
-	if u == nil {
-		return false
-	}
-	if (u.Kind == "union" || u.Kind == "inter") && len(u.Children) == 0 {
-		return true
-	}
-	for _, c := range u.Children {
-		if hasEmptyOperator(c) {
-			return true
-		}
-	}
-	return false
-}
-
 // a relation with a direct assignment but no type restriction at all (prints "[]")
 func modelHasUnrestrictedThis(m *Model) bool {
 	for _, t := range m.Types {
 		for _, r := range t.Rels {
 			if r.Rewrite.CountThis() > 0 && (t.MetaNil || r.NoMeta || len(r.Restr) == 0) {
-				return true
-			}
-		}
-	}
-	return false
-}
-
-func modelHasEmptyOperator(m *Model) bool {
-	for _, t := range m.Types {
-		for _, r := range t.Rels {
-			if hasEmptyOperator(r.Rewrite) {
 				return true
 			}
 		}
@@ -151,13 +125,6 @@ func c02Check(c *Ctx, m *Model, stream string) {
 		}
 	}
 	expr := modelExpressible(m)
-	if modelHasEmptyOperator(m) && c.Known.Open("KF-C02-empty-operator") {
-		// known finding D13: an operator without operands is printed as an empty operand list
-		if ok {
-			c.KnownHit("KF-C02-empty-operator", input)
-			return
-		}
-	}
 	if condsOK {
 		if ok != expr {
 			fail("printer success (" + B(ok) + ") differs from DSL-expressibility (" + B(expr) + ")")
